@@ -116,8 +116,8 @@ func evalExecBlock(vm *r.VM, execBlock *syntax.ExecBlock, params []r.Element) (r
 			return nil, err
 		}
 
-		// set inputValue to current scope
-		if err := vm.DeclareElement(idTag, params[idx]); err != nil {
+		// set inputValue to current scope - input variables are constants
+		if err := vm.DeclareConstElement(idTag, params[idx]); err != nil {
 			return nil, err
 		}
 	}
